@@ -41,16 +41,11 @@ theorem applyStyle_withSty (p : P α) (s : Sty α) (a : Attr α) :
 theorem applyRules_withSty (p : P α) (s : Sty α) (rules : List (Rule α)) :
     applyRules o (withSty p s) rules = withSty p (rulesCore o p.diagonal p.elems s rules) := by
   unfold applyRules rulesCore
-  refine foldl_withSty p _ _ ?_ rules s
-  intro s r
-  show (if ruleApplies r p.elems = true then setProps o (withSty p s) r.props else withSty p s) = _
-  split
-  · exact setProps_withSty o p s r.props
-  · rfl
+  exact foldl_withSty p _ _ (fun s (nr : Nat × Rule α) => setProps_withSty o p s nr.2.props) _ s
 
 /-- **styling is the cascade**: `setStyling` changes nothing but style, importer state and error flag,
 and computes them as the pure function `cascade` of the inherited values and the element's own
-declarations (attributes, then matching rules in order of appearance, then the style attribute) -/
+declarations (attributes, then matching rules by specificity and order, then the style attribute) -/
 theorem setStyling_eq_cascade (p : P α) (attrs : List (Attr α)) :
     setStyling o p attrs = withSty p (cascade o p.diagonal p.rules p.elems (sty p) attrs) := by
   unfold setStyling cascade
@@ -154,28 +149,5 @@ theorem ruleSpec_isSome (r : Rule α) (elems : List Elem) : (ruleSpec r elems).i
   simp only [Option.isSome_none, Bool.false_or]
   unfold ruleApplies
   simp only [List.any_cons, List.any_nil, Bool.or_false]
-
-/-- the importer folds over the matching rules in order of appearance -/
-theorem rulesCore_eq_matching (diag : α) (elems : List Elem) (rules : List (Rule α)) : ∀ s : Sty α,
-    rulesCore o diag elems s rules =
-      (matching rules elems).foldl (fun s nr => propsCore o diag s nr.2.props) s := by
-  unfold rulesCore matching
-  induction rules with
-  | nil => intro s; rfl
-  | cons r t ih =>
-    intro s
-    simp only [List.foldl_cons, List.filterMap_cons]
-    have hs := ruleSpec_isSome r elems
-    cases hr : ruleSpec r elems with
-    | none =>
-      rw [hr] at hs
-      have : ruleApplies r elems = false := by simpa using hs.symm
-      simp only [this, Bool.false_eq_true, if_false, Option.map_none]
-      exact ih s
-    | some n =>
-      rw [hr] at hs
-      have : ruleApplies r elems = true := by simpa using hs.symm
-      simp only [this, if_true, Option.map_some, List.foldl_cons]
-      exact ih _
 
 end C19
